@@ -185,3 +185,31 @@ def mkmap_verify_rules(ctx, clause):
         else:
             R.ok(clause, 'R1', 'MKMapProof::verify: master contains key+sub_root for every sub-proof', '', mv.loc())
 
+
+
+
+def open_message_prune_rule(ctx, clause, consequence):
+    """The open-message clean-up run by the epoch initialisation tasks (also at every restart) deletes strictly below the epoch
+    being entered.  Decided on the comparison OPERATOR of the embedded SQL condition only (see DESIGN 8.2)."""
+    from props.common import parse_sql_comparison
+    R = ctx.report
+    AG = 'mithril_aggregator::'
+    CS = '<mithril_aggregator::services::certifier::certifier_service::MithrilCertifierService as mithril_aggregator::services::certifier::interface::CertifierService>::'
+    dq = ctx.try_fn(clause, AG + 'database::query::open_message::delete_open_message::DeleteOpenMessageQuery::below_epoch_threshold')
+    if dq is None:
+        return
+    conds = ctx.sql_conditions(dq)
+    parsed = [parse_sql_comparison(t) for t, _ in conds]
+    inst = 'DeleteOpenMessageQuery::below_epoch_threshold: the SQL condition is `epoch < threshold` (strict)'
+    if not conds or any(p is None for p in parsed):
+        R.missing(clause, 'below_epoch_threshold: no `<column> <op> ?` condition constant found (conditions: %s) - rewritten in a form this rule does not read' % [t for t, _ in conds])
+    elif all(p[1] == '<' for p in parsed):
+        R.ok(clause, 'R6', inst, 'condition %r' % conds[0][0], dq.loc())
+    else:
+        R.violation(clause, 'R6', inst, 'open_message:prune-strict', 'conditions %s parse to %s: open messages of the threshold epoch itself would be deleted, %s' % (
+            [t for t, _ in conds], parsed, consequence), dq.loc())
+    ctx.arg_origin(clause, AG + 'database::repository::open_message_repository::OpenMessageRepository::clean_epoch',
+                   AG + 'database::query::open_message::delete_open_message::DeleteOpenMessageQuery::below_epoch_threshold', 0,
+                   require=['p#2'], desc='(threshold) <- epoch')
+    ctx.arg_origin(clause, CS + 'inform_epoch', AG + 'database::repository::open_message_repository::OpenMessageRepository::clean_epoch', 1,
+                   require=['p#2'], desc='(threshold) <- the epoch being entered')
